@@ -182,6 +182,17 @@ class Kernel:
             return None
         if t[0] == "call" and t[1] == "list" and len(t[2]) == 1 and not t[3]:
             return self.listexpr(t[2][0], depth + 1)          # list(<generator / list>) is that list
+        if t[0] == "call" and t[1] == "zip" and len(t[2]) == 2 and not t[3]:
+            # zip(S, [g(e) for e in S]) - a list walked together with values computed from it, position by position - is
+            # [(e, g(e)) for e in S]
+            parts = []
+            for a in t[2]:
+                le = self.listexpr(a, depth + 1)
+                parts.append(le if le is not None else (self.canon_top(a), TRUE, ("e",), True))
+            (b0, f0, e0, w0), (b1, f1, e1, w1) = parts
+            if b0 == b1 and f0 == TRUE and f1 == TRUE and w0 and w1:
+                return (b0, TRUE, ("tup", (e0, e1)), True)
+            return None
         if t[0] == "compr":
             L = self.sx.loops[t[1]]
             if L.ckind not in ("list", "gen", "set"):
